@@ -231,6 +231,20 @@ def cases(ctx):
             doc = ("fl", [("u1", ut)], [f"BU({L}, u1)"], "[u1, 1.5, -0.0, 2.0, 6.0, 1e300, 's', '%d', '%', '%s']") if kind == "value" else \
                   ("fm", [("u1", U)], [f"BU({L}, u1)"], "{1.5: u1, 2.0: 0, -0.0: 1, 'a': 2, 6.0: 3, '%d': 4, '%': 5}")
             out.append(one_case(kind, None, name, ("conc", [], [], args, {}), doc))
+    # `%` with a string on the left is string formatting: format-like string items (has_factor) / a format-like string argument
+    # (factor_of) against arguments / items of every JSON-like kind - mapping-key directives look the key up in a mapping
+    # (KeyError), `%c` takes code points (OverflowError), `*` widths consume arguments (TypeError / ValueError). Such an item never
+    # satisfies the condition; nothing may abort the filter. Concrete strings (formatting a symbolic str is enumerated per string).
+    FMT_ITEMS = "['%(a)s', '%(a)d %(b)s', '%c', '%*d', '%d', '%s %s', '100%', '%', '%%', '%(a', u1, 4, {'a': 1}]"
+    for n, a in enumerate(["{}", "{'b': 1}", "{'a': u1}", "[1]", "[]", "-1", "1114112", "None", "'x'", "[1, 2]", "True"]):   # (no float argument: `bool_atom % 2.5` is the int/real mix that stalls z3)
+        doc = ("fmt", [("u1", "Optional[bool]")], [], FMT_ITEMS)
+        out.append(one_case("value", None, "has_factor", (f"fmtarg{n}", [], [], [a], {}), doc))
+        if not ctx.quick or n % 3 == 0:
+            out.append(one_case("key", None, "has_factor", (f"fmtarg{n}", [], [], [a], {}),
+                                ("fmtk", [("u1", "Optional[bool]")], [], "{'%(a)s': u1, '%c': 0, '%*d': 1, '%(a)d %(b)s': 2, 3: 3, '100%': 4}")))
+    for n, a in enumerate(["'%(a)s'", "'%(a)d'", "'%c'", "'%*d'", "'%s %s'", "'100%'", "'%d'"]):
+        doc = ("fmtd", [("u1", "Optional[bool]")], [], "[{}, {'b': 1}, {'a': u1}, {'a': 's'}, [1], [], -1, 1114112, None, 'x', 2.5, u1, (1, 2) and [1, 2], 0]")
+        out.append(one_case("value", None, "factor_of", (f"fmtval{n}", [], [], [a], {}), doc))
     # equal_to_approx at large magnitudes and at the tolerance edge (concrete floats: where `value +- tolerance` rounds back to
     # `value`, or the edge fraction is not representable, only the documented `abs(item - value) < tolerance` is right)
     for n, args in enumerate([["1e300", "1e-8"], ["1700000000"], ["9007199254740992", "0.5"], ["1", "0.1"], ["1700000000.5", "0.25"]]):
